@@ -40,3 +40,13 @@ CONTRACTS["vectorizers/linear_optimal_transport.py::l2_normalize"] = dict(
     ensures=["vectors.shape[0] == old(vectors.shape[0]) and vectors.shape[1] == old(vectors.shape[1])"],
     loops={"for#1": dict(invariant=["True"]), "for#2": dict(invariant=["norm >= 0"]), "for#3": dict(invariant=["True"])},
 )
+
+# tangent-space projection: one output row per input row, and - C13 - NEITHER argument is written (sphere_basepoints is the caller's
+# reference_vectors array; the frame obligations generated for both parameters are what a "normalise in place" refactoring fails)
+CONTRACTS[F + "project_to_sphere_tangent_space"] = dict(
+    params=dict(euclidean_vectors="real[,]", sphere_basepoints="real[,]"),
+    requires=["sphere_basepoints.shape[0] >= euclidean_vectors.shape[0]", "sphere_basepoints.shape[1] == euclidean_vectors.shape[1]"],
+    returns="real[,]",
+    ensures=["result.shape[0] == euclidean_vectors.shape[0] and result.shape[1] == euclidean_vectors.shape[1]"],
+    loops={"for#1": dict(invariant=["result.shape[0] == euclidean_vectors.shape[0] and result.shape[1] == euclidean_vectors.shape[1]"])},
+)
